@@ -119,7 +119,7 @@ def check_triple(ctx, reqs, metas, b, l, r, strat, transients, md, kinds, varian
                 ctx.violation('%s-strategy %s leaves an unresolved conflict at %s' % (variant, strat, p), dict(data, kind='unresolved'))
 
 
-def run(ctx):
+def _run_property(ctx):
     ctx.cov['rule'] = ('notebook triples (as C03) x strategy in {use-base, use-local, use-remote} given as --merge-strategy (full equivalence with the relabelled '
                        'mergetool decisions + provenance) or only as input / output strategy (no conflict left on those paths) x transients ignored or not x helper; '
                        'non-trivial = every case; distinct by (triple, strategy, variant)')
@@ -142,7 +142,24 @@ def run(ctx):
                       {'kind': 'correspondence', 'stream': 'C10 apply', 'first': {k: mism[0][k] for k in ('strategy', 'model')}}, found=False, classify=False)
 
 
+MERGE_MODEL_THEOREMS = []
+
+
+def run(ctx):
+    from checks import mergemodel
+    _run_property(ctx)
+    mergemodel.tie(ctx, (50, 20, 600, 200), MERGE_MODEL_THEOREMS, combos=[mergelib.Args('use-base'), mergelib.Args('use-local'), mergelib.Args('use-remote'), mergelib.Args('mergetool'), mergelib.Args('inline', 'use-local', 'use-remote'), mergelib.Args('inline', None, 'use-base', False), mergelib.Args('use-remote', 'inline', None)])
+
+
 def replay(path):
+    _d = json.load(open(path))['data']
+    if _d.get('kind') == 'correspondence' and _d.get('stream') == 'merge-model':
+        from checks import mergemodel
+        return mergemodel.replay_case(_d)
+    return _replay_property(path)
+
+
+def _replay_property(path):
     data = json.load(open(path))['data']
     ctx = vlib.Ctx('C10', 'quick', 0)
     if 'b' in data:
